@@ -540,6 +540,9 @@ def t_collapse_slice(p):
         S("sym_axis_end_big", "sliced dim symbolic;end finite", mk([3, 4], [0], [100], [0], [1], decl=["N", 4])),
         S("sym_other_axis", "other dim symbolic", mk([3, 4], [0], [4], [1], [1], decl=["N", 4])),
         S("unknown_shape_intmax", "x shape unknown;end=INT64_MAX", mk([3, 4], [0], [INT64_MAX], [0], [1], decl="none")),
+        S("anon_axis_real_slice", "sliced dim anonymous;start=1;end<dim", mk([5, 4], [1], [3], [0], [1], decl=[None, 4])),
+        S("anon_axis_tail", "sliced dim anonymous;start=1;end=INT64_MAX", mk([5, 4], [1], [INT64_MAX], [0], [1], decl=[None, 4])),
+        S("anon_two_axes_real_slice", "all dims anonymous;start=1", mk([5, 4], [1], [3], [1], [1], decl=[None, None])),
         S("end_short", "end<dim", mk([3, 4], [0], [3], [1], [1])),
         S("end_neg1", "end=-1", mk([3, 4], [0], [-1], [1], [1])),
         S("start_1", "start=1", mk([3, 4], [1], [4], [1], [1])),
